@@ -30,6 +30,8 @@ type guardedAction struct {
 	Pos    token.Pos
 	Node   ast.Node             // the statement
 	Atoms  map[string]guardAtom // for each atomic guard literal: the expression it renders and its polarity
+	// OrAtoms: for each disjunctive guard literal "(a||b)", the atoms mentioned in it (none is established alone)
+	OrAtoms map[string][]guardAtom
 }
 
 // guardAtom is an atomic condition of a guard: Expr holds when Neg is false, does not hold when Neg is true. (For a
@@ -87,6 +89,7 @@ func guardedActions(f *FuncInfo, root ast.Node) []guardedAction {
 	// conjunctions and disjunctions are flattened and their operands sorted. The guard of an action is the set of
 	// top-level conjuncts, so `a && b`, nested ifs, `!(!a || !b)` and a swapped if/else all give the same guard.
 	atoms := map[string]guardAtom{}
+	orAtoms := map[string][]guardAtom{}
 	var nnf func(e ast.Expr, neg bool) (op string, parts []string) // op: "and", "or", "atom"
 	flipCmp := map[token.Token]token.Token{token.EQL: token.NEQ, token.NEQ: token.EQL, token.LSS: token.GEQ, token.GEQ: token.LSS, token.GTR: token.LEQ, token.LEQ: token.GTR}
 	render := func(op string, parts []string) string {
@@ -158,7 +161,15 @@ func guardedActions(f *FuncInfo, root ast.Node) []guardedAction {
 	condParts := func(e ast.Expr, negate bool) []string {
 		op, parts := nnf(e, negate)
 		if op == "or" {
-			return []string{render(op, parts)}
+			key := render(op, parts)
+			// the atoms mentioned inside a disjunctive conjunct: none of them is established on its own, but a rule
+			// that asks "does the guard involve X at all" needs to see them
+			for k, a := range atoms {
+				if strings.Contains(key, k) {
+					orAtoms[key] = append(orAtoms[key], a)
+				}
+			}
+			return []string{key}
 		}
 		return parts
 	}
@@ -217,12 +228,18 @@ func guardedActions(f *FuncInfo, root ast.Node) []guardedAction {
 			}
 		}
 		am := map[string]guardAtom{}
+		var om map[string][]guardAtom
 		for _, s := range gg {
 			if a, ok := atoms[s]; ok {
 				am[s] = a
+			} else if as, ok := orAtoms[s]; ok {
+				if om == nil {
+					om = map[string][]guardAtom{}
+				}
+				om[s] = as
 			}
 		}
-		out = append(out, guardedAction{Guard: gg, Action: action, Pos: n.Pos(), Node: n, Atoms: am})
+		out = append(out, guardedAction{Guard: gg, Action: action, Pos: n.Pos(), Node: n, Atoms: am, OrAtoms: om})
 	}
 	// diverts: the block always leaves the enclosing statement list (return, break, continue, goto, panic)
 	diverts := func(b *ast.BlockStmt) bool {
